@@ -17,7 +17,7 @@ for f in os.listdir(f"{src}/checks"):
         shutil.copy(f"{src}/checks/{f}", f"/verif/checks/{f}"); print("checks:", f)
 for d in ["extract", f"corpus/{P}", f"facts"]:
     if os.path.isdir(f"{src}/{d}"):
-        r = sh(f"rsync -a --exclude '*.test' {src}/{d}/ /verif/{d}/"); print("rsync", d, r.returncode)
+        r = sh(f"rsync -a --update --exclude '*.test' {src}/{d}/ /verif/{d}/"); print("rsync", d, r.returncode)
 shutil.copy(f"{src}/REPORT-{P}{EXT}.md", f"/verif/reports/REPORT-{P}{EXT}.md") if os.path.exists(f"{src}/REPORT-{P}{EXT}.md") and (os.makedirs("/verif/reports", exist_ok=True) or True) else None
 # other changed files outside the usual places
 r = sh(f"cd {src} && diff -rq . /verif -x .lake -x work -x replays -x evidence -x .git -x __pycache__ -x go.sum -x go.mod | grep -v 'Only in /verif' | head -40")
